@@ -36,6 +36,7 @@ type Behaviour struct {
 	Body         []byte
 	BodyErrAfter int          // >=0: the body fails after that many bytes
 	BodyStall    bool         // with BodyErrAfter: stall (until ctx ends) instead of failing
+	Announce     *int64       // Content-Length the origin announces (nil: none, chunked); it may lie
 	Loop         http.Handler // forward into this handler (self-loop) and relay its response
 	LoopHeaders  http.Header  // extra headers on the forwarded request
 }
@@ -158,8 +159,25 @@ func (o *Origin) RoundTrip(req *http.Request) (*http.Response, error) {
 		body = &faultyBody{data: b.Body[:k], stall: b.BodyStall, ctx: req}
 	}
 	setResult(fmt.Sprintf("status:%d", status))
+	cl := int64(-1)
+	if b.Announce != nil {
+		// what net/http hands over for an announced length: the header, the
+		// parsed field, and a body that ends at the announced length or fails
+		// with an unexpected EOF when the peer sent less
+		cl = *b.Announce
+		h = h.Clone()
+		h.Set("Content-Length", fmt.Sprint(cl))
+		if b.BodyErrAfter < 0 {
+			switch {
+			case cl < int64(len(b.Body)):
+				body = io.NopCloser(bytes.NewReader(b.Body[:cl]))
+			case cl > int64(len(b.Body)):
+				body = &faultyBody{data: b.Body, ctx: req, err: io.ErrUnexpectedEOF}
+			}
+		}
+	}
 	return &http.Response{StatusCode: status, Status: fmt.Sprintf("%d %s", status, http.StatusText(status)), Proto: "HTTP/1.1", ProtoMajor: 1, ProtoMinor: 1,
-		Header: h, Body: body, ContentLength: -1, Request: req}, nil
+		Header: h, Body: body, ContentLength: cl, Request: req}, nil
 }
 
 type faultyBody struct {
@@ -167,6 +185,7 @@ type faultyBody struct {
 	off   int
 	stall bool
 	ctx   *http.Request
+	err   error // nil: ErrBody
 }
 
 func (f *faultyBody) Read(p []byte) (int, error) {
@@ -178,6 +197,9 @@ func (f *faultyBody) Read(p []byte) (int, error) {
 	if f.stall {
 		<-f.ctx.Context().Done()
 		return 0, f.ctx.Context().Err()
+	}
+	if f.err != nil {
+		return 0, f.err
 	}
 	return 0, ErrBody
 }
